@@ -58,6 +58,8 @@ impl<A: Ord + Clone> CmRDT for PNCounter<A> {
     open spec fn cm_pre(&self, op: &Op<A>) -> bool { true }
     open spec fn cm_post(old_: &Self, op: &Op<A>, new_: &Self) -> bool { true }
     open spec fn cm_vpre(&self, op: &Op<A>) -> bool { true }
+    open spec fn cm_vhyp() -> bool { true }
+    open spec fn cm_vflag(&self, op: &Self::Op) -> bool { false }
 
 //@extract fn src/pncounter.rs "CmRDT for PNCounter" validate_op
     fn validate_op(&self, op: &Self::Op) -> /*@ (r: @*/ Result<(), Self::Validation> /*@ ) @*/
@@ -89,6 +91,8 @@ impl<A: Ord + Clone> CvRDT for PNCounter<A> {
     closed spec fn cv_inv(&self) -> bool { self.p.cv_inv() && self.n.cv_inv() }
     open spec fn cv_pre(&self, other: &Self) -> bool { true }
     open spec fn cv_post(old_: &Self, other: &Self, new_: &Self) -> bool { true }
+    open spec fn cv_vhyp() -> bool { true }
+    open spec fn cv_flag(&self, other: &Self) -> bool { false }
 
 //@extract fn src/pncounter.rs "CvRDT for PNCounter" validate_merge
     fn validate_merge(&self, other: &Self) -> /*@ (r: @*/ Result<(), Self::Validation> /*@ ) @*/
